@@ -163,8 +163,8 @@ func translatePath(m string, callee *ssa.Function, args []ssa.Value) string {
 		if i >= len(args) {
 			break
 		}
-		if m == prm.Name() || strings.HasPrefix(m, prm.Name()+".") {
-			return Desc(args[i]) + strings.TrimPrefix(m, prm.Name())
+		if m == PN(prm) || strings.HasPrefix(m, PN(prm)+".") {
+			return Desc(args[i]) + strings.TrimPrefix(m, PN(prm))
 		}
 	}
 	if !strings.Contains(m, ".") { // global mutex
